@@ -112,6 +112,25 @@ def rule_accessors(ctx, cmod, model, all_keys):
                           n, key, short(repr(out[n]), 120), "seventh chord" if s else "triad", d + 1, want))
 
 
+    # history independence of the memo tables: all keys through ONE interpreter, in two orders
+    # (relative keys share their notes but not their chords: an entry filed under the wrong index leaks)
+    for oname, order in (("majors-first", list(all_keys)), ("minors-first", list(reversed(all_keys)))):
+        calls = []
+        for key in order:
+            calls += [("triads@" + key, tri, [key]), ("sevenths@" + key, sev, [key])]
+        try:
+            out = eval_calls(ctx, calls, model)
+        except CannotDecide as e:
+            raise AnalysisError("chord tables over all keys (%s): %s" % (oname, e))
+        for key in order:
+            for label, seventh, f in (("triads", False, tri), ("sevenths", True, sev)):
+                want = [expected_stack(key, d, seventh) for d in range(7)]
+                got = out["%s@%s" % (label, key)]
+                ctx.check(got == ("return", want), R, "%s[%s|after %s]" % (label, key, oname), f.where(),
+                          "%s(%r) after the other keys were asked (%s)" % (label, key, oname),
+                          "answer depends on earlier requests: %s instead of %s" % (short(repr(got), 200), short(repr(want), 120)))
+
+
 # ------------------------------------------------------------------------------ parser / formatter
 def rule_parse_format(ctx, pmod, model):
     R = "R-C08-3"
